@@ -618,7 +618,7 @@ public:
 private:
 
     std::pair<size_t, uint64_t> pred(uint64_t i) const {
-        if (i > ef.size()) {
+        if (i >= ef.size() - 1) {
             auto j = ef.low.size();
             return {j - 1, ef.low[j - 1] + ((ef.high_1_select(j) + 1 - j) << (ef.wl))};
         }
